@@ -58,14 +58,14 @@ Proof. exact vm_legacy_parser_refuted. Qed.
 Print Assumptions C08_legacy_parser_refuted.
 
 (* the estimate and /proc/zoneinfo, all contents: (a) when the file is not consulted (MemAvailable
-   present and non-zero, or an input of the estimate missing) ANY content -- absent, unparsable,
-   arbitrary bytes -- gives the demanded record; (b) when it is consulted, arbitrary bytes either
+   present and non-zero, or an input of the estimate missing) ANY state -- absent, unopenable,
+   unreadable, unparsable, arbitrary bytes -- gives the demanded record; (b) when it is consulted, arbitrary bytes either
    yield a record or raise IndexError ("low" without a number) / ValueError (not a number); the
    kernel-formatted files are covered by C08_vm_exact *)
-Theorem C08_vm_zoneinfo_unread : forall len k (z : option bytes),
+Theorem C08_vm_zoneinfo_unread : forall len k (z : zstate),
   wf_kernel k = true -> has_total_free k = true -> (len = true \/ no_junk (k_mem k) = true) ->
   zone_read k = false ->
-  virtual_memory_gen len (k_pagesize k) (k_meminfo (k_mem k)) z = Val (spec_vm k).
+  virtual_memory_z len (k_pagesize k) (k_meminfo (k_mem k)) z = Val (spec_vm k).
 Proof. exact vm_zoneinfo_unread. Qed.
 Print Assumptions C08_vm_zoneinfo_unread.
 
@@ -76,6 +76,25 @@ Theorem C08_vm_zoneinfo_raw_outcomes : forall len k (z : bytes),
   virtual_memory_gen len (k_pagesize k) (k_meminfo (k_mem k)) (Some z) = Exc ValueError.
 Proof. exact vm_zoneinfo_raw_outcomes. Qed.
 Print Assumptions C08_vm_zoneinfo_raw_outcomes.
+
+(* (c) the file exists but open() fails -- EACCES, EIO, EISDIR (it is a directory), any errno: the
+   answer is the one demanded for the kernel without zoneinfo, i.e. estimate = free + cached; never
+   an exception *)
+Theorem C08_vm_zoneinfo_open_error : forall k e,
+  wf_kernel k = true -> has_total_free k = true ->
+  virtual_memory_z true (k_pagesize k) (k_meminfo (k_mem k)) (ZOpenErr e) = Val (spec_vm (no_zone k)) /\
+  virtual_memory_z true (k_pagesize k) (k_meminfo (k_mem k)) ZAbsent = Val (spec_vm (no_zone k)) /\
+  sp_fallback (no_zone k) = sp_free k + default0 (kbytes (k_mem k) "Cached:").
+Proof. exact vm_zoneinfo_open_error. Qed.
+Print Assumptions C08_vm_zoneinfo_open_error.
+
+(* observation: when the file is consulted, a read() error after a successful open escapes as OSError
+   (the loop is outside the try); when it is not consulted C08_vm_zoneinfo_unread applies *)
+Theorem C08_vm_zoneinfo_read_error : forall k,
+  wf_kernel k = true -> has_total_free k = true -> zone_read k = true ->
+  virtual_memory_z true (k_pagesize k) (k_meminfo (k_mem k)) (ZReadErr []) = Exc OSError.
+Proof. exact vm_zoneinfo_read_error. Qed.
+Print Assumptions C08_vm_zoneinfo_read_error.
 
 (* the float path: for EVERY rounding operator that leaves multiples of 1024 (half units) below
    2^63 alone, the double-precision evaluation int(free - wl + (pc - min(pc/2, wl)) + (sr -
@@ -254,6 +273,16 @@ Theorem C08_memory_percent_cached : forall t value ps (mi : bytes) (zi : option 
   memory_percent (Some t) value ps mi zi = (Some t, Val (value * 100, t)).
 Proof. exact memory_percent_cached. Qed.
 Print Assumptions C08_memory_percent_cached.
+
+(* every successful virtual_memory() call refreshes the cached total: whatever was cached before,
+   the next memory_percent() divides by THAT call's total (whatever the files hold by then) *)
+Theorem C08_phymem_refresh : forall k c value ps' (mi' : bytes) (zi' : option bytes),
+  wf_kernel k = true -> has_total_free k = true -> float_exact k = true -> 0 < sp_total k ->
+  memory_percent (fst (front_vm c (k_pagesize k) (k_meminfo (k_mem k)) (option_map k_zoneinfo (k_zone k))))
+                 value ps' mi' zi'
+  = (Some (sp_total k), Val (value * 100, sp_total k)).
+Proof. exact phymem_refresh. Qed.
+Print Assumptions C08_phymem_refresh.
 
 (* over any history of calls the module global is the total of the most recent evaluation *)
 Theorem C08_phymem_history : forall h c,
